@@ -447,6 +447,29 @@ def open_oracle(prop):
             if "altered_accepted=1" in impl or (impl.startswith("ok ") and "dec=0 val=0" not in impl):
                 return ("a token whose footer bytes were replaced by a different encoding of the same footer value was accepted / decoded "
                         "(the footer is authenticated as received, not as re-encoded): " + impl[:80], "%s/%s/footer-reencoded" % (be, t[2]))
+        elif t[0] == "o.rtj":
+            if impl != "ok claims_same=1 footer_same=1":
+                return ("registered claims / JSON footer did not come back unchanged through seal -> text -> parse -> unseal: " + impl[:80], "%s/%s/claims-roundtrip" % (be, t[2]))
+        elif t[0] == "o.keypair":
+            if impl.startswith("ok half=") and ("clone_same=0" in impl or "reparse_same=0" in impl):
+                return ("a cloned / re-parsed secret key signs differently from the key it came from (deterministic signature scheme): " + impl, "%s/public/clone-signs-differently" % be)
+        elif t[0] == "o.aadbind" and impl.startswith("ok "):
+            kv = dict(x.split("=") for x in impl[3:].split(" "))
+            has_aad = be not in ("v1", "v2")
+            if kv.get("plain_none") != "1":
+                return ("encrypt()/sign() then decrypt()/verify() (no assertion) failed", "%s/%s/wrapper-roundtrip" % (be, t[2]))
+            if kv.get("plain_a") == "1":
+                return ("a token sealed without an implicit assertion was accepted under a non-empty one", "%s/%s/wrapper-aad-ignored" % (be, t[2]))
+            if has_aad:
+                if kv["sealed"] != "1" or kv["same"] != "1":
+                    return ("*_with_aad(a) then *_with_aad(a) did not round-trip: " + impl[:80], "%s/%s/wrapper-aad-roundtrip" % (be, t[2]))
+                if kv["none"] == "1" or kv["empty"] == "1" or kv["other"] == "1":
+                    return ("a token sealed under an implicit assertion opens without it / under another one (the wrapper does not bind the assertion): " + impl[:80], "%s/%s/wrapper-aad-unbound" % (be, t[2]))
+            elif kv["sealed"] == "1":
+                return ("a version without implicit assertions sealed a token under a non-empty assertion instead of refusing", "%s/%s/wrapper-aad-accepted" % (be, t[2]))
+        elif t[0] == "o.sibc":
+            if impl != "ok same=1 cross12=1 cross21=1":
+                return ("sibling back ends disagree for a payload type with a non-empty encoding suffix: " + impl, "v%s/local/siblings-suffix" % t[1])
         elif t[0] == "o.sib":
             if impl != "ok same=1 cross12=1 cross21=1":
                 return ("sibling back ends disagree: " + impl, "v%s/local/siblings" % t[1])
@@ -587,8 +610,10 @@ def c08_oracle(op, impl):
         if impl.startswith("err"):
             return ("an accepted key could not be re-decoded / re-parsed: " + impl, "%s/key/roundtrip" % be)
     elif t[0] == "o.keypair":
-        if impl.startswith("ok half=") and impl != "ok half=1 verifies=1 clone_verifies=1":
+        if impl.startswith("ok half=") and not impl.startswith("ok half=1 verifies=1 clone_verifies=1"):
             return ("public key derived from an accepted secret key does not match / verify: " + impl, "%s/key/keypair" % be)
+        if impl.startswith("ok half=") and ("clone_same=0" in impl or "reparse_same=0" in impl):
+            return ("a cloned / re-parsed secret key signs differently from the key it came from (deterministic signature scheme): " + impl, "%s/key/clone-signs-differently" % be)
         if impl.startswith("err"):
             return ("signing with an accepted secret key failed: " + impl, "%s/key/keypair" % be)
     elif t[0] == "key.dec" and impl.startswith("ok"):
